@@ -27,12 +27,13 @@ RULE = ("random orthogonal cells (1-5 atoms), grids 12-28 (odd/even/rectangular)
         "anisotropic tuple/anisotropic dict/anisotropic per-atom, seed int or explicit tuple, direction subsets of xyz, ensemble_mean "
         "T/F, source FrozenPhonons/AtomsEnsemble (list, to_atoms_ensemble, delayed)/list of Atoms/SMatrix, builder Probe/PlaneWave, "
         "scan none/custom/line/grid, detector none/annular/flexible/segmented/pixelated/list of two, exit planes none/int/tuple "
-        "with entrance plane, projection infinite/finite, eager or lazy with max_batch auto/1/2; non-trivial = at least 2 "
+        "with entrance plane, projection infinite/finite, eager or lazy with max_batch auto/1/2, in a third of the cases a twin "
+        "ensemble (same kind, seeds and shapes, other atoms or sigmas) evaluated lazily in the same dask.compute call; non-trivial = at least 2 "
         "configurations and at least 2 slices; distinct = distinct case signature")
 CLAUSES = ["member:values", "member:axes", "mean:values", "config-axis", "displacement-model", "seeds-determine",
            "chunk-independence", "order-independence", "mode-independence", "pipeline-displacements",
-           "atoms-ensemble-order"]
-QUICK = dict(n=28, time=38)
+           "atoms-ensemble-order", "joint-compute:values"]
+QUICK = dict(n=22, time=34)
 THOROUGH = dict(n=2470, time=480, shards=16)
 
 POS_ATOL = 2e-6     # sigmas are stored in float32 by abTEM: |sigma*r| rounding <= 0.3*6*6e-8 ~ 1e-7
@@ -106,6 +107,8 @@ def gen(rng, tier):
         "projection": str(rng.choice(["infinite", "infinite", "infinite", "finite"])),
         "defocus": float(rng.uniform(-50, 80)), "semiangle": float(rng.uniform(12, 28)),
         "traj_seed": int(rng.integers(0, 2 ** 31 - 1)),
+        "joint": [None, None, None, None, "atoms", "sigmas"][int(rng.integers(0, 6))],
+        "joint_scheduler": ["threads", "synchronous"][int(rng.integers(0, 2))],
     }
 
 
@@ -126,6 +129,10 @@ def fixed_cases(tier):
     out.append(dict(base, sigma_kind="aniso_dict", sigmas={"Si": [0.05, 0.1, 0.2], "C": [0.2, 0.02, 0.1], "Au": [0.03, 0.03, 0.3]},
                     seed=[5, 99, 1234, 77], num_configs=4, directions="zx", detector="flexible", ensemble_mean=True,
                     lazy=True, max_batch=1))
+    # two lazy ensembles of the same kind / seeds / shapes in one dask graph
+    out.append(dict(base, builder="plane", joint="atoms", seed=[3, 4], num_configs=2))
+    out.append(dict(base, detector="annular", ensemble_mean=True, joint="sigmas", joint_scheduler="synchronous"))
+    out.append(dict(base, source="atoms_ensemble", detector="pixelated", joint="atoms", lazy=True))
     # one interior exit plane: every lazy block / a one-configuration ensemble holds exactly one (configuration, plane) pair
     out.append(dict(base, lazy=True, exit_planes=[1], detector="pixelated"))
     out.append(dict(base, num_configs=1, exit_planes=[2], detector="annular", ensemble_mean=True))
@@ -253,8 +260,8 @@ def _detectors(case, cutoff):
     return None
 
 
-def _simulate(case, potential, lazy, max_batch="auto"):
-    """Run the case's pipeline through `potential`; returns a list of computed array objects."""
+def _simulate(case, potential, lazy, max_batch="auto", compute=True):
+    """Run the case's pipeline through `potential`; returns a list of (computed) array objects."""
     import abtem
     with warnings.catch_warnings():
         warnings.simplefilter("ignore")
@@ -274,7 +281,7 @@ def _simulate(case, potential, lazy, max_batch="auto"):
             else:
                 out = b.multislice(potential, scan=_scan(case, potential.extent), detectors=det, lazy=lazy,
                                    max_batch=max_batch)
-        if lazy:
+        if lazy and compute:
             out = out.compute(scheduler="synchronous" if case.get("max_batch") == 1 else "threads")
     return list(out) if isinstance(out, (list, tuple)) else [out]
 
@@ -420,6 +427,76 @@ def compare_ensemble(ctx, case, got, refs, mean_expected):
         ctx.monitor("members-compared")
 
 
+# --------------------------------------------------------------------------- several lazy ensembles in one dask graph
+def _twin_ensemble(case, atoms, fp, n):
+    """A second ensemble of the same kind, shape and seeds over *different* atoms (same species and cell)."""
+    import abtem
+    import dask
+    rng = np.random.default_rng(case["traj_seed"] + 17)
+    source = case["source"]
+    how = case.get("joint", "atoms")
+    if fp is not None and source != "to_atoms_ensemble":
+        atoms2 = atoms.copy()
+        sig = _sigmas_arg(case)
+        if how == "sigmas" and isinstance(sig, float):
+            sig = 2.5 * sig                                   # same atoms and seeds, other displacements
+        else:
+            atoms2.positions += rng.normal(scale=0.4, size=atoms2.positions.shape)
+        return abtem.FrozenPhonons(atoms2, num_configs=n, sigmas=sig, directions=case["directions"],
+                                   ensemble_mean=case["ensemble_mean"], seed=tuple(fp.seed))
+    traj = []
+    for _ in range(n):
+        a = atoms.copy()
+        a.positions += rng.normal(scale=0.4, size=a.positions.shape)
+        traj.append(a)
+    if source == "atoms_list":
+        return traj
+    if source == "delayed":
+        return abtem.AtomsEnsemble([dask.delayed(a) for a in traj], ensemble_mean=case["ensemble_mean"])
+    return abtem.AtomsEnsemble(traj, ensemble_mean=case["ensemble_mean"])
+
+
+def check_joint_compute(ctx, case, atoms, fp, ens, refs, ens_mean, kw, n):
+    """Two lazy ensemble simulations evaluated in ONE dask.compute call (and their lazy difference) must equal their
+    separate evaluation; the separately evaluated primary is also held against the per-configuration runs."""
+    import abtem
+    import dask
+    twin = _twin_ensemble(case, atoms, fp, n)
+    pots = [abtem.Potential(ens, **kw), abtem.Potential(twin, **kw)]
+    lazy = [_simulate(case, p, True, case["max_batch"], compute=False) for p in pots]
+    if not ctx.expect(len(lazy[0]) == len(lazy[1]) and all(getattr(o, "is_lazy", False) for l in lazy for o in l),
+                      "joint-compute:values", what="lazy outputs"):
+        return
+    with warnings.catch_warnings():
+        warnings.simplefilter("ignore")
+        arrays = [o.array for l in lazy for o in l]
+        diffs = [b.array - a.array for a, b in zip(lazy[0], lazy[1]) if a.shape == b.shape]
+        if not ctx.expect(all(hasattr(a, "dask") for a in arrays), "joint-compute:values", what="dask arrays"):
+            return
+        joint = dask.compute(*(arrays + diffs), scheduler=str(case.get("joint_scheduler", "threads")))
+        # (abTEM's compute() works in place, so the separate evaluation comes after the joint one, one graph per call)
+        separate = [[o.compute(scheduler="synchronous") for o in l] for l in lazy]
+    m = len(lazy[0])
+    flat_sep = [G.to_numpy(o) for l in separate for o in l]
+    for k, (j, s_) in enumerate(zip(joint[:2 * m], flat_sep)):
+        scale = max(float(np.abs(s_).max()), 1e-30)
+        ctx.close(np.asarray(j), s_, "joint-compute:values", rtol=RTOL, atol=ATOL_REL * scale, which="primary" if k < m else "twin",
+                  output=k % m)
+    for k, d in enumerate(joint[2 * m:]):
+        want = flat_sep[m + k] - flat_sep[k]
+        scale = max(float(np.abs(flat_sep[k]).max()), 1e-30)
+        ctx.close(np.asarray(d), want, "joint-compute:values", rtol=RTOL, atol=2 * ATOL_REL * scale, which="lazy difference", output=k)
+    differs = any(a.shape == b.shape and np.abs(a - b).max() > 1e-3 * max(np.abs(a).max(), 1e-30)
+                  for a, b in zip(flat_sep[:m], flat_sep[m:]))
+    ctx.monitor("joint-computes")
+    if not differs:
+        ctx.note("joint-twin-indistinguishable")
+    # anchor: the separately evaluated lazy primary against the independent single-configuration runs
+    for jx, g in enumerate(separate[0]):
+        is_meas = not isinstance(g, abtem.Waves) and type(g).__name__ != "SMatrixArray"
+        compare_ensemble(ctx, case, g, [r[jx] for r in refs], mean_expected=ens_mean and is_meas)
+
+
 # --------------------------------------------------------------------------- check
 def check(ctx, case):
     import abtem
@@ -499,6 +576,10 @@ def check(ctx, case):
     for j, g in enumerate(got):
         is_meas = not isinstance(g, abtem.Waves) and type(g).__name__ != "SMatrixArray"
         compare_ensemble(ctx, case, g, [r[j] for r in refs], mean_expected=ens_mean and is_meas)
+
+    if case.get("joint"):
+        check_joint_compute(ctx, case, atoms, fp, ens if source != "atoms_list" else [c.copy() for c in configs], refs,
+                            ens_mean, kw, n)
 
     # ---- SMatrix: the built scattering matrices themselves carry the configuration axis
     if case["builder"] == "smatrix":
